@@ -65,7 +65,8 @@ def short_tx(tx):
         else:
             parts.append("%d%s-of-[%s]n=%d%s(%s)" % (s["m"], "" if s["menc"] == "op" else ":" + s["menc"], ks, s["n"],
                                                       "" if s["nenc"] == "op" else ":" + s["nenc"], sg))
-    return "payer=%s%s %s" % (tx["payer"]["kind"], tx["payer"]["i"] or "", " ".join(parts))
+    pre = "" if tx.get("pre", "fresh") == "fresh" else " [object history: %s]" % tx["pre"]
+    return "payer=%s%s %s%s" % (tx["payer"]["kind"], tx["payer"]["i"] or "", " ".join(parts), pre)
 
 
 def run_tlc_rows(ctx, module, cfg, workers=None, timeout=1500, files=None):
@@ -115,9 +116,11 @@ def split_tx_rows(rows):
     V, X, M = [], [], []
     for r in rows:
         if r[0] == "V":
-            V.append({"tx": tx_from_tuple(r[1]), "mut": r[2], "v": r[3], "ok": r[4], "dup": r[5], "exact": r[6]})
+            tx = tx_from_tuple(r[1])
+            tx["pre"] = r[7] if len(r) > 7 else "fresh"
+            V.append({"tx": tx, "mut": r[2], "v": r[3], "ok": r[4], "dup": r[5], "exact": r[6], "pre": tx["pre"]})
         elif r[0] == "X":
-            X.append({"tx": tx_from_tuple(r[1]), "same": r[2], "nraw": r[3], "nsigned": r[4], "canon": r[5]})
+            X.append({"tx": dict(tx_from_tuple(r[1]), pre="fresh"), "same": r[2], "nraw": r[3], "nsigned": r[4], "canon": r[5]})
         elif r[0] == "M":
             M.append({"tx": tx_from_tuple(r[1]), "name": r[2], "i": r[3], "j": r[4], "tx2": tx_from_tuple(r[5])})
     return V, X, M
@@ -209,3 +212,61 @@ def hdr_rows(rows):
 
 def hdr_str(h):
     return "bookkeepers=%s sigs=[%s]" % (h["bk"], ",".join(s[0] + (str(s[1]) if s[1] else "") for s in h["sigs"]))
+
+
+# --------------------------------------------------------------------------------------------- SigEpoch (stateful C32/C33)
+def epoch_phase(ctx, binary, which, cfg, test, inp_extra, design_cfg=None):
+    """TLC enumerates all histories of MaxSteps header steps (spec/SigEpoch.tla); every maximal history is replayed on the
+    real code.  Returns (histories, steps, unsound) or None."""
+    jobs = [lambda: run_tlc_rows(ctx, "SigEpoch_MC", cfg)]
+    if design_cfg:
+        jobs.append(lambda: run_tlc_plain(ctx, "SigEpoch_MC", design_cfg, "design: EpochSound"))
+    res = parallel(*jobs)
+    r, rows = res[0]
+    if not r:
+        return None
+    paths = [[{"op": s[0], "height": s[1], "signers": sorted(s[2]), "cfg": sorted(s[3]), "lastcfg": s[4], "acc": s[5], "ok": s[6],
+               "stale": s[7]} for s in row] for row in rows]
+    if not paths or not any(s["acc"] for p in paths for s in p) or not any(not s["acc"] for p in paths for s in p):
+        ctx.infra("vacuous SigEpoch run (%s)" % which)
+        return None
+    inp = dict(inp_extra, paths=[[{k: s[k] for k in ("op", "height", "signers", "cfg", "lastcfg")} for s in p] for p in paths])
+    out = go_rows(ctx, binary, test, inp, "epoch-" + which)
+    if out is None:
+        return None
+    obs = [o for o in out[1:] if "p" in o]
+    if len(obs) != len(paths):
+        ctx.infra("epoch harness returned %d/%d histories" % (len(obs), len(paths)))
+        return None
+    drift = []
+    nsteps = unsound = 0
+    seen = set()
+    for p, o in zip(paths, obs):
+        stale_before = False
+        for i, s in enumerate(p):
+            nsteps += 1
+            real = o["acc"][i]
+            desc = " ; ".join("%s(h=%d signers=%s%s%s)->%s" % (q["op"], q["height"], q["signers"], " newpeers=%s" % q["cfg"] if q["cfg"] else "",
+                                                            " lastcfg=%d" % q["lastcfg"] if which == "ledger" else "",
+                                                            "acc" if o["acc"][j] else "rej") for j, q in enumerate(p[:i + 1]))
+            if real and not s["ok"]:
+                unsound += 1
+                if which == "ledger":
+                    key = ("%s:unsound-accept:superseded-configuration-via-LastConfigBlockNum" % s["op"]) if (s["stale"] or stale_before) and s["acc"] \
+                        else "%s:unsound-accept:peer-set-not-in-force" % s["op"]
+                else:
+                    key = "SyncBlockHeader:unsound-accept:peer-set-not-in-force"
+                if (key, desc) not in seen:
+                    seen.add((key, desc))
+                    ctx.violation(key, {"history": desc, "model_accepts": s["acc"]}, {"which": which, "steps": p[:i + 1], "extra": inp_extra})
+            if real != s["acc"]:
+                if not (real and not s["ok"]):
+                    drift.append((desc, "real=%s model=%s err=%s" % (real, s["acc"], o["err"][i])))
+                break                      # the real state has left the model's history
+            if s["acc"] and s["stale"]:
+                stale_before = True
+    if drift:
+        ctx.infra("MODEL-DRIFT (SigEpoch %s): %d histories, e.g. %s" % (which, len(drift), drift[:2]))
+    ctx.log("SigEpoch %s: %d histories / %d steps replayed, %d unsound accepts" % (which, len(paths), nsteps, unsound))
+    ctx.samples.append({"history": [(s["op"], s["height"], s["signers"], s["cfg"], s["acc"]) for s in paths[len(paths) // 2]]})
+    return len(paths), nsteps, unsound
